@@ -230,7 +230,26 @@ pub fn slice(value: Value, start: Value, stop: Value, step: Value) -> Result<Val
             }
 
             if step > 0 {
-                let len = obj.enumerator_len().unwrap_or_default();
+                let Some(len) = obj.enumerator_len() else {
+                    // The length is unknown.  Bounds relative to the end need
+                    // all items, everything else can stay lazy.
+                    let needs_len =
+                        start.map_or(false, |x| x < 0) || stop.map_or(false, |x| x < 0);
+                    return Ok(Value::make_object_iterable(obj, move |obj| {
+                        let Some(iter) = obj.try_iter() else {
+                            return Box::new(None.into_iter());
+                        };
+                        if needs_len {
+                            let vec: Vec<Value> = iter.collect();
+                            let (start, len) = get_offset_and_len(start, stop, || vec.len());
+                            Box::new(vec.into_iter().skip(start).take(len).step_by(step as usize))
+                        } else {
+                            let start = start.unwrap_or(0) as usize;
+                            let len = stop.map_or(usize::MAX, |x| (x as usize).saturating_sub(start));
+                            Box::new(iter.skip(start).take(len).step_by(step as usize))
+                        }
+                    }));
+                };
                 let (start, len) = get_offset_and_len(start, stop, || len);
                 Ok(Value::make_object_iterable(obj, move |obj| {
                     if let Some(iter) = obj.try_iter() {
